@@ -371,11 +371,13 @@ func (n *Nodis) blockingPop(timeout time.Duration, pop func(key string, count in
 	}
 	for {
 		for _, key := range keys {
+			verifPoint("bpop.beforePop")
 			results := pop(key, 1)
 			if len(results) > 0 {
 				return key, results[0]
 			}
 		}
+		verifPoint("bpop.beforeWait")
 		select {
 		case <-c:
 		case <-expired:
